@@ -99,6 +99,11 @@ func (v *VM) exec() {
 		case codeNegate:
 			v.stack[len(v.stack)-1] = v.stack[len(v.stack)-1].opMul(newUntypedInt(-1))
 		case codeBitComplement:
+			if a := v.stack[len(v.stack)-1]; a.t == untypedInt {
+				// the complement of an untyped constant is an untyped constant
+				v.stack[len(v.stack)-1] = newUntypedInt(^int(a.num))
+				break
+			}
 			a := v.stack[len(v.stack)-1].assign(TypeNil)
 			b := Uint32(0xffffffff).convert(a.t)
 			v.stack[len(v.stack)-1] = a.opBitXor(b)
